@@ -371,12 +371,16 @@ Section Translation.
     v3scale Rops (nhalf Rops) (v3add Rops (v3add Rops a t) (v3add Rops b t)) =
     v3add Rops (v3scale Rops (nhalf Rops) (v3add Rops a b)) t.
   Proof. dv a; dv b; dv t. unfold v3scale, v3add, nhalf. v3ring; field. Qed.
+  Lemma v3add_swap (a b c : V3) : v3add Rops (v3add Rops a b) c = v3add Rops (v3add Rops a c) b.
+  Proof. dv a; dv b; dv c. unfold v3add. v3ring. Qed.
   Lemma tr_distance_z_ref2 main ref ref2 :
     total_mass Rops main <> 0 -> total_mass Rops ref <> 0 -> total_mass Rops ref2 <> 0 ->
     cv_distance_z_ref2 Rops pbc cell (sh main) (sh ref) (sh ref2) = cv_distance_z_ref2 Rops pbc cell main ref ref2.
   Proof.
     intros H1 H2 H3. unfold cv_distance_z_ref2. rewrite !com_shift by assumption.
-    cbv zeta. rewrite half_sum_shift, !pdist_shift. reflexivity.
+    cbv zeta. rewrite pdist_shift. destruct pbc.
+    - rewrite v3add_swap, pdist_shift. reflexivity.
+    - rewrite half_sum_shift, pdist_shift. reflexivity.
   Qed.
   Lemma tr_distance_xy_ref2 main ref ref2 :
     total_mass Rops main <> 0 -> total_mass Rops ref <> 0 -> total_mass Rops ref2 <> 0 ->
@@ -473,8 +477,16 @@ Section Rotation.
     cv_distance_z_ref2 Rops pbc None (ro main) (ro ref) (ro ref2) = cv_distance_z_ref2 Rops pbc None main ref ref2.
   Proof.
     intros H. unfold cv_distance_z_ref2. rewrite !com_rot. cbv zeta.
-    rewrite mat_vec_add, <- mat_vec_scale, !pdist_rot, v3unit_rot by assumption.
-    apply dot_rot. exact Horth.
+    rewrite pdist_rot, v3unit_rot by assumption.
+    assert (E : (if pbc then v3add Rops (mat_vec Rops M (com Rops ref))
+                               (v3scale Rops (nhalf Rops) (mat_vec Rops M (pdist Rops pbc None (com Rops ref) (com Rops ref2))))
+                 else v3scale Rops (nhalf Rops) (v3add Rops (mat_vec Rops M (com Rops ref)) (mat_vec Rops M (com Rops ref2)))) =
+                mat_vec Rops M (if pbc then v3add Rops (com Rops ref) (v3scale Rops (nhalf Rops) (pdist Rops pbc None (com Rops ref) (com Rops ref2)))
+                                else v3scale Rops (nhalf Rops) (v3add Rops (com Rops ref) (com Rops ref2)))).
+    { destruct pbc.
+      - rewrite <- mat_vec_scale, mat_vec_add. reflexivity.
+      - rewrite mat_vec_add, <- mat_vec_scale. reflexivity. }
+    rewrite E, pdist_rot. apply dot_rot. exact Horth.
   Qed.
   Lemma ortho_norm_rot (ax d : V3) : ortho_norm Rops (mat_vec Rops M ax) (mat_vec Rops M d) = ortho_norm Rops ax d.
   Proof.
@@ -800,6 +812,24 @@ Section Lattice.
   Lemma lat_distance_dir n m g1 g2 : total_mass Rops g1 <> 0 -> total_mass Rops g2 <> 0 ->
     cv_distance_dir Rops true cell (lshift n g1) (lshift m g2) = cv_distance_dir Rops true cell g1 g2.
   Proof. intros H1 H2. unfold cv_distance_dir. rewrite lat_distance_vec by assumption. reflexivity. Qed.
+  Lemma lat_distance_z_fixed axis n m main ref : total_mass Rops main <> 0 -> total_mass Rops ref <> 0 ->
+    cv_distance_z_fixed Rops true cell axis (lshift n main) (lshift m ref) = cv_distance_z_fixed Rops true cell axis main ref /\
+    cv_distance_xy_fixed Rops true cell axis (lshift n main) (lshift m ref) = cv_distance_xy_fixed Rops true cell axis main ref.
+  Proof.
+    intros H1 H2. unfold cv_distance_z_fixed, cv_distance_xy_fixed. rewrite !com_lshift by assumption.
+    rewrite !pdist_lattice. split; reflexivity.
+  Qed.
+  Lemma v3add_lat_swap (a b : V3) n : v3add Rops (v3add Rops a (let '(n1, n2, n3) := n in lat n1 n2 n3)) b =
+                                       v3add Rops (v3add Rops a b) (let '(n1, n2, n3) := n in lat n1 n2 n3).
+  Proof. destruct n as [[n1 n2] n3]. dv a; dv b. unfold v3add, lattice. v3ring. Qed.
+  Lemma lat_distance_z_ref2 n m k main ref ref2 :
+    total_mass Rops main <> 0 -> total_mass Rops ref <> 0 -> total_mass Rops ref2 <> 0 ->
+    cv_distance_z_ref2 Rops true cell (lshift n main) (lshift m ref) (lshift k ref2) = cv_distance_z_ref2 Rops true cell main ref ref2 /\
+    cv_distance_xy_ref2 Rops true cell (lshift n main) (lshift m ref) (lshift k ref2) = cv_distance_xy_ref2 Rops true cell main ref ref2.
+  Proof.
+    intros H1 H2 H3. unfold cv_distance_z_ref2, cv_distance_xy_ref2. rewrite !com_lshift by assumption.
+    cbv zeta. rewrite !pdist_lattice, v3add_lat_swap, pdist_lattice. split; reflexivity.
+  Qed.
   Lemma lat_angle n1 n2 n3 g1 g2 g3 : total_mass Rops g1 <> 0 -> total_mass Rops g2 <> 0 -> total_mass Rops g3 <> 0 ->
     cv_angle Rops PI true cell (lshift n1 g1) (lshift n2 g2) (lshift n3 g3) = cv_angle Rops PI true cell g1 g2 g3.
   Proof. intros H1 H2 H3. unfold cv_angle. rewrite !com_lshift by assumption. cbv zeta. rewrite !pdist_lattice. reflexivity. Qed.
